@@ -44,7 +44,15 @@ def consts_check(ctx):
     return out, rows
 
 
+ROM = ("Cryptographic step not proved (stated exactly by the theorems): a proof is accepted with some failing equation only if the Fiat-Shamir "
+       "batching weight w lands on one of <= k-1 roots fixed before w is squeezed (random-oracle model), and a false statement is provable only by "
+       "producing two accepting transcripts / breaking discrete log (special soundness extractors are the theorems).")
+DALEK = ("curve25519-dalek (Ristretto255 group law, 32-byte codec, scalar field) is modelled: theorems assume a field F, an F-module G and the "
+         "codec laws dec(enc P)=P, dec b = P -> enc P = b, enc 0 = 0^32; the concrete Lean instance is validated bit-for-bit against dalek, not proved lawful")
+MERLIN = "merlin/keccak transcripts are an arbitrary function in the theorems and a concrete re-implementation in the driver (validated differentially)"
+
 PROPS = {
+    "C01": dict(module="ZkElGamal.Props.C01", ns="Zk.Props.C01", trusted=[DALEK, MERLIN], assumptions=[ROM, DALEK, MERLIN]),
     "C15": dict(module="ZkElGamal.Props.C15", ns="Zk.Props.C15", extra=[consts_check], exhaustive=True,
                 assumptions=["solana_instruction::Instruction / AccountMeta and bytemuck::bytes_of are external (modelled)"]),
     "C16": dict(module="ZkElGamal.Props.C16", ns="Zk.Props.C16", extra=[consts_check], exhaustive=True,
@@ -55,7 +63,18 @@ PROPS = {
                 assumptions=["TypeScript sources are parsed as text (enum bodies, exported numeric constants, address literal)"]),
 }
 
+SIGMA_NOTE = ("Trusted: Lean kernel; curve25519-dalek and merlin are modelled (theorems over an abstract field/module with lawful codecs and an arbitrary "
+              "transcript function; concrete Lean Ristretto/Merlin validated bit-for-bit by the correspondence). Not proved: ROM / discrete-log steps "
+              "(root-hitting weight, second transcript).")
+
 MANIFEST_TEXT = {
+    "C01": dict(
+        technique="Lean 4 proof (verify_ok_iff, batching-root bound, special-soundness extractors) over a generic model executed bit-exactly + differential correspondence with adversarial model-prover",
+        text="Per protocol: verification of raw bytes succeeds iff parse (exact length, decodable points, canonical scalars) and identity policy and the batched textbook equations under recomputed challenges; "
+             "failing equations survive for at most k-1 batching weights (polynomial root bound, any cancellation pattern); two accepting transcripts yield the witness. "
+             "The same Lean definitions run as `zkmodel` and must agree with the Rust verifier on honest, one-relation-false, all residual vectors, zero-nonce, identity-subset, z+k*l and special-value inputs; "
+             "the model also acts as adversarial prover whose proofs the Rust verifier must judge identically.",
+        note=SIGMA_NOTE),
     "C15": dict(
         technique="Lean 4 proof (encode/decode laws for all inputs; `decide +kernel` over the enum/struct tables regenerated from source) + differential correspondence with the SDK encoders/decoders",
         text="Theorems: the ProofInstruction enum regenerated from instruction.rs equals the documented v1 table (0..12); layout, account order/flags, "
